@@ -6,7 +6,7 @@ sys.path.insert(0, ROOT)
 from vlib import props
 
 HOOK_COMMITS = ["5faa070"]
-FIX_COMMITS = ["5ce47be", "5913455"]
+FIX_COMMITS = ["5ce47be", "5913455", "371624d"]
 LEVEL_TEXT = {
  "C07": ("TLC checks the colour formula's lemmas (within 1 of the real-valued formula, monotone, alpha) for all 2^24 "
          "triples on Yuv.tla, and validates the real converter's output against Yuv!Pixel for all 65536 chroma pairs x "
@@ -19,8 +19,13 @@ LEVEL_TEXT = {
  "C16": ("Exhaustive over widths x heights (from 0 rows) x 12 strengths: every recorded call must return and equal "
          "Deblock!DeblockImage as recomputed by TLC; the published strength table is compared with Table J.2 "
          "transcribed in the specification.", "5 C16"),
+ "C14": ("The reader is specified as a state machine (BitReader.tla); TLC explores exhaustively every op sequence of "
+         "bounded length over all small sources (invariants InOrderOnce, BufferAccounting, ResultsAreFaithful, action "
+         "property RollbackRestores), exports behaviours that are replayed into the real H263Reader, and validates the "
+         "recorded result and position probe of every operation of long random sequences against the same spec.", "5 C14"),
 }
 NOTE = {
+ "C14": "Trusted: TLC; position is observed through a non-consuming peek probe after every operation; failed VLC reads are only generated where the documented 'position undefined' cannot matter (inside a transaction that then fails, or as the last operation).",
  "C09": "Trusted: TLC's evaluator. The 2^32 x 12 kernel domain is covered by stratified quadruples (10^4 quick / 16^4 thorough) placed in vector and scalar lanes, not exhaustively.",
  "C16": "Trusted: TLC's evaluator; bounded size range (24x24 quick, 48x48 thorough).",
  "C07": "Trusted: TLC's evaluator; the driver's packing of RGBA into one integer. Inputs are 4x1 pictures (vector body).",
@@ -31,6 +36,7 @@ TECH = {
  "C08": "TLA+ spec (Yuv.tla) + TLC trace validation of recorded conversions over a dense size range",
  "C09": "TLA+ spec (Deblock.tla) model-checked with TLC + staged trace validation (horizontal pass, vertical pass, compare)",
  "C16": "TLA+ spec (Deblock.tla) + exhaustive size x strength sweep validated by TLC",
+ "C14": "TLA+ state machine (BitReader.tla) model-checked exhaustively with TLC; spec behaviours replayed into the code; recorded op sequences trace-validated by TLC",
 }
 ALL = ["C%02d" % i for i in range(1, 18)]
 checks, na = [], []
